@@ -166,14 +166,32 @@ def check(ctx: Ctx, ev: Evidence) -> list[Finding]:
     # R2
     # (a) definite, shape-independent part: what is fed to the CRC must be trimmed to the prefix, i.e. the fed bytes are
     #     data-dependent on size_to_verify (a loop TEST that depends on it stops the loop but does not trim the last block)
-    dt = _data_tainted(fi.node, {"size_to_verify"})
-    feeds = [n for n in ast.walk(fi.node) if isinstance(n, ast.Call) and isinstance(n.func, ast.Attribute) and n.func.attr == "update" and n.args]
-    feeds = [n for n in feeds if any(isinstance(l, (ast.While, ast.For)) and any(x is n for x in ast.walk(l)) for l in ast.walk(fi.node))]
+    def _feeds_of(f):
+        fs = [n for n in ast.walk(f.node) if isinstance(n, ast.Call) and isinstance(n.func, ast.Attribute) and n.func.attr == "update" and n.args]
+        return [n for n in fs if any(isinstance(l, (ast.While, ast.For)) and any(x is n for x in ast.walk(l)) for l in ast.walk(f.node))]
+
+    SZ, SEG = "size_to_verify", "segment_len"
+    fi_top = fi
+    feeds = _feeds_of(fi)
     if not feeds:
-        raise AnalysisError("calculate_checksum: no CRC update inside a loop (anchor vanished)")
+        # the loop may have been extracted into a helper of the same class: follow the call that passes the prefix length on
+        for c in [n for n in ast.walk(fi.node) if isinstance(n, ast.Call) and isinstance(n.func, ast.Attribute) and ast.unparse(n.func.value) == "self"]:
+            callee = prog.functions.get(f"{NF}.{c.func.attr}")
+            if callee is None or not _feeds_of(callee):
+                continue
+            params = callee.params[1:] if callee.params and callee.params[0] == "self" else callee.params
+            amap = {ast.unparse(a): params[i] for i, a in enumerate(c.args) if i < len(params)}
+            amap.update({ast.unparse(k.value): k.arg for k in c.keywords if k.arg})
+            if SZ in amap:
+                fi, SZ, SEG = callee, amap[SZ], amap.get(SEG, SEG)
+                feeds = _feeds_of(fi)
+                break
+    dt = _data_tainted(fi.node, {SZ})
+    if not feeds:
+        raise AnalysisError("calculate_checksum: no CRC update inside a loop, neither directly nor in a helper that receives the prefix length (anchor vanished)")
     for u in feeds:
         dep = any(isinstance(n, ast.Name) and n.id in dt for n in ast.walk(u.args[0]))
-        ev.inst("C09-R2", f"bytes fed by `{ast.unparse(u)[:60]}` are trimmed by the prefix length (data dependence on size_to_verify)", "ok" if dep else "violation", loc(fi, u))
+        ev.inst("C09-R2", f"bytes fed by `{ast.unparse(u)[:60]}` are trimmed by the prefix length (data dependence on {SZ})", "ok" if dep else "violation", loc(fi, u))
         if not dep:
             out.append(Finding("C09-R2", f"{fi.qualname} | CRC loop | fed block not trimmed to the prefix",
                                f"the bytes passed to `{ast.unparse(u)[:60]}` do not depend on size_to_verify: the last block is read with the chunk length and covers bytes beyond the requested prefix whenever the prefix is not a multiple of the chunk length", loc(fi, u)))
@@ -189,10 +207,10 @@ def check(ctx: Ctx, ev: Evidence) -> list[Finding]:
     if w is None:
         pass
     elif isinstance(w.test, ast.Compare) and len(w.test.ops) == 1 and isinstance(w.test.ops[0], ast.Lt) and isinstance(w.test.left, ast.Name) \
-            and ast.unparse(w.test.comparators[0]) == "size_to_verify":
+            and ast.unparse(w.test.comparators[0]) == SZ:
         cur = w.test.left.id
     else:
-        probs.append(f"loop test `{ast.unparse(w.test)}` is not `<cursor> < size_to_verify`")
+        probs.append(f"loop test `{ast.unparse(w.test)}` is not `<cursor> < {SZ}`")
     if w is not None:
         ev.inst("C09-R2", f"loop test {ast.unparse(w.test)}", "ok" if cur else "violation", loc(fi, w))
         if not cur and not probs[:-1]:
@@ -208,11 +226,11 @@ def check(ctx: Ctx, ev: Evidence) -> list[Finding]:
         for s in w.body:
             if isinstance(s, ast.Assign) and isinstance(s.value, ast.Call) and ast.unparse(s.value.func) == "min" and len(s.value.args) == 2:
                 args = {ast.unparse(a) for a in s.value.args}
-                if args == {"segment_len", f"size_to_verify - {cur}"}:
+                if args == {SEG, f"{SZ} - {cur}"}:
                     chunk = s.targets[0].id if isinstance(s.targets[0], ast.Name) else None
-        ev.inst("C09-R2", f"chunk = min(segment_len, size_to_verify - {cur})", "ok" if chunk else "violation", loc(fi, w))
+        ev.inst("C09-R2", f"chunk = min({SEG}, {SZ} - {cur})", "ok" if chunk else "violation", loc(fi, w))
         if not chunk:
-            probs.append(f"no `chunk = min(segment_len, size_to_verify - {cur})` in the loop body")
+            probs.append(f"no `chunk = min({SEG}, {SZ} - {cur})` in the loop body")
         adv = [s for s in w.body if isinstance(s, ast.AugAssign) and isinstance(s.op, ast.Add) and ast.unparse(s.target) == cur]
         ok = len(adv) == 1 and chunk is not None and ast.unparse(adv[0].value) == chunk
         ev.inst("C09-R2", f"{cur} += {chunk} once per iteration, unconditionally", "ok" if ok else "violation", loc(fi, w))
@@ -227,14 +245,25 @@ def check(ctx: Ctx, ev: Evidence) -> list[Finding]:
             probs.append("the chunk read at (cursor, chunk) does not feed exactly one crc update per iteration")
         if reads:
             g = guards_of(fi.node, reads[0])
-            extra = [ast.unparse(x) for x, pol in g if x is not w.test and not ast.unparse(x).startswith(("checksum_type", "not file_path", "segment_len =="))]
+            extra = [ast.unparse(x) for x, pol in g if x is not w.test and not ast.unparse(x).startswith(("checksum_type", "not file_path", SEG + " =="))]
             extra = [x for x in extra if x != f"{chunk} > 0"]
             if extra:
                 probs.append(f"the chunk read is additionally guarded by {extra}")
     for p_ in probs:
         out.append(Finding("C09-R2", f"{fi.qualname} | CRC loop | {p_[:80]}", f"CRC loop is not the tiling idiom: {p_}", loc(fi, w)))
+    fi = fi_top
     # R3
     sa = Standalone(prog)
+    # the method of the class whose result calculate_checksum feeds and digests (found by use, not by name)
+    crc_factory = None
+    for a_ in ast.walk(fi.node):
+        if isinstance(a_, ast.Assign) and isinstance(a_.value, ast.Call) and isinstance(a_.value.func, ast.Attribute) and ast.unparse(a_.value.func.value) == "self" \
+                and len(a_.targets) == 1 and isinstance(a_.targets[0], ast.Name) and [ast.unparse(x) for x in a_.value.args] == ["checksum_type"]:
+            cand = prog.functions.get(f"{NF}.{a_.value.func.attr}")
+            if cand is not None:
+                crc_factory = cand
+    if crc_factory is None:
+        raise AnalysisError("calculate_checksum: the call that builds the CRC calculator from the checksum type was not found")
     members = prog.lib_enums.get("ChecksumType") or []
     want = {"CRC_32": "crc32", "CRC_32C": "crc32c"}
     for m in members:
@@ -248,12 +277,12 @@ def check(ctx: Ctx, ev: Evidence) -> list[Finding]:
             out.append(Finding("C09-R3", f"{NF}.checksum_type_to_crcmod_str | {m}", f"checksum type {m} maps to {got}, specified {exp}", "src/cfdppy/filestore.py"))
         st = Store()
         ref = st.alloc(NF, {})
-        res, exs = sa.run(NF + "._verify_checksum", [E("ChecksumType", m)], st, ref)
+        res, exs = sa.run(crc_factory.qualname, [E("ChecksumType", m)], st, ref)
         got2 = "accepted" if res and not exs else "refused"
         exp2 = "accepted" if m in want else "refused"
-        ev.inst("C09-R3", f"_verify_checksum({m}): {got2}", "ok" if got2 == exp2 else "violation")
+        ev.inst("C09-R3", f"CRC calculator factory {crc_factory.name}({m}): {got2}", "ok" if got2 == exp2 else "violation")
         if got2 != exp2:
-            out.append(Finding("C09-R3", f"{NF}._verify_checksum | {m}", f"checksum type {m} is {got2} by the CRC path, specified {exp2}", "src/cfdppy/filestore.py"))
+            out.append(Finding("C09-R3", f"{NF} CRC calculator factory | {m}", f"checksum type {m} is {got2} by the CRC path, specified {exp2}", "src/cfdppy/filestore.py"))
     body = [s for s in fi.node.body if not (isinstance(s, ast.Expr) and isinstance(s.value, ast.Constant))]
     first = body[0] if body else None
     ok = isinstance(first, ast.If) and "NULL_CHECKSUM" in ast.unparse(first.test) and len(first.body) == 1 and isinstance(first.body[0], ast.Return) \
